@@ -13,8 +13,8 @@ from vlib.cassettes import open_box
 
 PROPERTY = 'C14'
 LEVEL = 'exploration'
-RULE = ('exhaustive core: every 1-key filter over (24 atoms + all lists of <=2 atoms + nested lists) x 16 recorded '
-        'values, every 2-key filter over atoms x atoms against a 16x5 metadata grid; then seeded random filters / '
+RULE = ('exhaustive core: every 1-key filter over (27 atoms + all lists of <=2 atoms + nested lists) x 19 recorded '
+        'values, every 2-key filter over atoms x atoms against a 19x5 metadata grid; then seeded random filters / '
         'metadata; then listings on memory/file/S3 cassettes over heterogeneous metadata. A case is the pair '
         '(filter, metadata); it is non-trivial when the filter has at least one key (all are). distinct = distinct '
         '(filter, metadata) pairs by canonical JSON.')
@@ -29,10 +29,10 @@ def op(o, v):
     return {'operator': o, 'value': v}
 
 
-ATOMS = [None, True, False, 0, 1, 5, 2.5, 'a', 'a*', '?', '[ab]*', '5', '', {'x': 1}, {},
+ATOMS = [None, True, False, 0, 1, 5, 2.5, 'a', 'a*', '?', '[ab]*', 'a[bc]', '[!b]b', '[[]', '5', '', {'x': 1}, {},
          op('=', 5), op('<', 5), op('<=', 5), op('>', 5), op('>=', 'a'), op('!=', 5),
          {'operator': '<'}, op('<', None), op('=', None)]
-RECORDED = [ABSENT, None, True, False, 0, 5, 7, 2.5, 'a', 'ab', '5', '', [1], ['a'], {'x': 1},
+RECORDED = [ABSENT, None, True, False, 0, 5, 7, 2.5, 'a', 'ab', 'ac', 'a[bc]', '[', '5', '', [1], ['a'], {'x': 1},
             {'py/type': 'vlib.values.Obj'}]
 
 
